@@ -27,6 +27,17 @@ type graph struct {
 	// successThresholdSinks specifies how many sinks must successfully process
 	// an event for Process to not return an error.
 	successThresholdSinks int
+
+	// thresholdLock guards successThreshold and successThresholdSinks, which
+	// are read while processing events without the broker's lock being held.
+	thresholdLock sync.RWMutex
+}
+
+// thresholds returns the success thresholds of the graph.
+func (g *graph) thresholds() (int, int) {
+	g.thresholdLock.RLock()
+	defer g.thresholdLock.RUnlock()
+	return g.successThreshold, g.successThresholdSinks
 }
 
 // Process the Event by routing it through all of the graph's nodes,
@@ -68,7 +79,8 @@ func (g *graph) process(ctx context.Context, e *Event) (Status, error) {
 			}
 		}
 	}
-	return status, status.getError(ctx.Err(), g.successThreshold, g.successThresholdSinks)
+	threshold, thresholdSinks := g.thresholds()
+	return status, status.getError(ctx.Err(), threshold, thresholdSinks)
 }
 
 // Recursively process every node in the graph.
